@@ -21,6 +21,8 @@ class ImportNode(BaseNode):
             nodes = env.request(self.value_ref, errsrc=False)
         else:
             nodes = env.request(self.value_ref)
+            if len(nodes)==0:
+                raise Exception("Import request did not select any node:", self.value_ref)
         for node in nodes:
             path = self.name.split(Sign.SEPARATOR + '{')
             path.pop()
